@@ -13,6 +13,14 @@ def variant_types():
     from opcua_tools.ua_data_types import VariantType
     return VariantType
 
+# the built-in type numbers of OPC UA Part 6, by class of the value (the harness's own table: the generator never passes type= to UAVariant)
+BUILTIN = {"UABoolean": 1, "UASByte": 2, "UAByte": 3, "UAInt16": 4, "UAUInt16": 5, "UAInt32": 6, "UAEnumeration": 6, "UAUInt32": 7, "UAInt64": 8, "UAUInt64": 9,
+           "UAFloat": 10, "UADouble": 11, "UAString": 12, "UADateTime": 13, "UAGuid": 14, "UAByteString": 15, "UAXMLElement": 16, "UANodeId": 17,
+           "UAExpandedNodeId": 18, "UAStatusCode": 19, "UAQualifiedName": 20, "UALocalizedText": 21, "UAExtensionObject": 22, "UADataValue": 23, "UAVariant": 24,
+           "UADiagnosticInfo": 25}
+def builtin_number(value):
+    return 0 if isna(value) else BUILTIN[type(value).__name__]
+
 def gen(rng):
     from opcua_tools import ua_data_types as T
     c = rng.random()
@@ -32,7 +40,7 @@ def gen(rng):
 
 def to_jsx(v):
     from opcua_tools import ua_data_types as T
-    if isinstance(v, T.UAVariant): return [Sym("variant"), [] if isna(v.value) else [py2sx(v.value)], v.type.value]
+    if isinstance(v, T.UAVariant): return [Sym("variant"), [] if isna(v.value) else [py2sx(v.value)], builtin_number(v.value)]
     if isinstance(v, T.UAQualifiedName): return [Sym("qname"), int(v.namespace_index), v.name]
     return py2sx(v)
 
@@ -94,9 +102,9 @@ def expect(v):
     """the JSON value the OPC UA encoding prescribes, as a Python object; raises KeyError for things outside the statement"""
     from opcua_tools import ua_data_types as T
     if isinstance(v, T.UAVariant):
-        if isna(v.value) or v.type.value == 0: return None
+        if isna(v.value): return None
         b = expect(v.value)
-        return None if b is None else {"Type": v.type.value, "Body": b}
+        return None if b is None else {"Type": builtin_number(v.value), "Body": b}
     if isinstance(v, T.UAQualifiedName):
         d = {"Name": v.name}
         if v.namespace_index != 0: d["Uri"] = int(v.namespace_index)
@@ -237,7 +245,8 @@ def check(ctx):
         if v is None: continue
         out, fails = judge(v)
         sx = to_jsx(v)
-        reqs.append([Sym("c10_json"), ext_table(v), sx]); meta.append((v, out))
+        # a Variant: the model infers the Type number from the value's class itself (M_C10r.variant_type_of)
+        reqs.append([Sym("c10_variant_auto"), ext_table(v), sx[1]] if isinstance(v, T.UAVariant) else [Sym("c10_json"), ext_table(v), sx]); meta.append((v, out))
         dreqs.append([Sym("c10_domain"), sx])
         preqs.append([Sym("c10_parse"), out[1][0] if out[0] == "ok" and out[1] else ""])
         s = repr(v)
